@@ -338,10 +338,9 @@ class BioConsert(RankAggAlgorithm, PairwiseBasedAlgorithm):
                     # next element
                     elt += 1
 
-                ranking_list: List[Set[Element]] = []
-                nb_buckets_ranking_i: int = len(ranking_dict)
-                for id_bucket in range(nb_buckets_ranking_i):
-                    ranking_list.append(ranking_dict.get(id_bucket))
+                # the ids of the buckets are not necessarily consecutive: a departure ranking which holds an empty bucket
+                # keeps the id of that bucket unused
+                ranking_list: List[Set[Element]] = [ranking_dict[id_bucket] for id_bucket in sorted(ranking_dict)]
                 res.append(Ranking(ranking_list))
 
         return Consensus(consensus_rankings=res,
